@@ -15,6 +15,16 @@ CLAIMS = {
             "Trusted: gmpy2 gcd/isqrt/is_square semantics, Python integer semantics, ast parser, the engine. "
             "Not decided: properness of Fermat-style pairs (depends on runtime max_steps vs. primality).",
             "DESIGN.md section 3 C01"),
+    "C18": ("other", "abstract interpretation (interprocedural constant propagation of the empty batch) + nullness/dominance analysis",
+            "Evaluates every registered Check method and the three all-checks entry points on the abstract input 'empty batch' over the "
+            "domain {empty, constant, list of known length, object, unknown}, following calls through the resolver; loops over the literal "
+            "CURVE_FACTORY table are executed definitely entry by entry, so every per-curve body is also evaluated on an empty partition. "
+            "Only definite exceptions are violations; the result must be the constant False. Separately every value drawn from CURVE_FACTORY "
+            "must be None-tested before it is dereferenced (binary-field/unknown curves), subscripts into the table must have keys of proven "
+            "provenance, the issuer index map must only hold non-empty lists, and every Check returns its boolean accumulator without a raise in the body.",
+            "Trusted: Python container semantics, the abstract evaluator. Not decided: arithmetic exceptions on degenerate *values* "
+            "(e.g. invert(0, p) for a crafted off-curve point), which need value reasoning.",
+            "DESIGN.md section 3 C18"),
     "C16": ("other", "typestate / who-may-write analysis over the AST + symbolic path walk of all 24 Check bodies",
             "Decides, for every path of every Check body in the package, that each loop iteration records exactly one "
             "result entry on that iteration's artifact with an entry created in the same iteration, that the positive flag, "
